@@ -46,7 +46,7 @@ MergeHeaps ==
    H2b(MAo, MB0, "dense", "dense", "mrg:recv-obs-md-only"), H2b(MAs, MBp, "csr", "dense", "mrg:recv-samp-md-only"),
    H3(MA0, MB0, MC0, "mrg:three"), H3(MD0, MA0, MBp, "mrg:three-b")}
 ConcatHeaps ==
-  {H2b(MA0, ME2, "dense", "dense", "cat:untyped-then-typed"), H2b(T33n, MP3, "dense", "csr", "cat:three-cycle-of-observations"), H2b(MA, ME, "dense", "csr_unsorted", "cat:obs-disjoint-permuted"), H2b(MA, MD0, "csc", "dense", "cat:disjoint-both"),
+  {H2b(MA, MZ, "dense", "csr", "cat:all-zero-operand"), H2b(MZ, MA0, "dense", "dense", "cat:all-zero-first"), H2b(MA0, ME2, "dense", "dense", "cat:untyped-then-typed"), H2b(T33n, MP3, "dense", "csr", "cat:three-cycle-of-observations"), H2b(MA, ME, "dense", "csr_unsorted", "cat:obs-disjoint-permuted"), H2b(MA, MD0, "csc", "dense", "cat:disjoint-both"),
    H2b(MA, MB, "dense", "dense", "cat:overlapping"), H2b(MA, MG, "csr_zeros", "dense", "cat:samp-disjoint-permuted"),
    H2b(MA0, MDm, "dense", "dense", "cat:first-without-md"),
    H3(MA, MF, MC0, "cat:three-partial"), H3(MA0, MD0, MF, "cat:three-b"), H3(MN, ME, MF, "cat:three-c")}
